@@ -515,6 +515,11 @@ func runC01(c *Ctx) {
 				default:
 					x := r.Finite()
 					y := r.FiniteNear(ref.Decode(x).Exp, r.Gap())
+					if xn := ref.Decode(x); i%20 == 9 && !xn.IsZero() {
+						// the second operand derived from part of the first one's coefficient
+						y = r.WordImageOperand(r.Bool(), xn.Coef, xn.Exp)
+						j.sh.Cell("gen/word-image-operand")
+					}
 					j.judgePair(x, y, "", 0)
 				}
 			}
